@@ -100,13 +100,13 @@ func (s *PXState) hash() string {
 }
 
 type PX struct {
-	OnCall   func(st *PXState, call ssa.CallInstruction)
-	OnEdge   func(st *PXState, from, to *ssa.BasicBlock)
-	OnReturn func(st *PXState, fr *pxFrame, r *ssa.Return)
+	OnCall        func(st *PXState, call ssa.CallInstruction)
+	OnEdge        func(st *PXState, from, to *ssa.BasicBlock)
+	OnReturn      func(st *PXState, fr *pxFrame, r *ssa.Return)
 	FollowHelpers bool // also walk into unexported go-nfsd functions called statically
-	budget   int
-	Exceeded bool
-	visited  map[string]bool
+	budget        int
+	Exceeded      bool
+	visited       map[string]bool
 }
 
 func NewPX() *PX { return &PX{budget: 40000, visited: map[string]bool{}} }
